@@ -138,6 +138,10 @@ type LogCase struct {
 	// re-assigned to those of the case; what the first use left in the value must not matter.
 	EarlierMin float64 `json:"earlier_min,omitempty"`
 	EarlierMax float64 `json:"earlier_max,omitempty"`
+	// Decreasing: the scale under test is the keyed literal Log{Min: the larger, Max: the
+	// smaller end} - NewLog orders its arguments, so a decreasing Log domain only arises this way
+	// (or by assigning the fields), and the statement covers both orders.
+	Decreasing bool `json:"decreasing,omitempty"`
 }
 
 func lnAbs(x float64) float64 { return ref.F64(ref.Ln(ref.B(math.Abs(x)))) }
@@ -162,6 +166,15 @@ var checkLog = ev.Register("log", func(c *LogCase) ev.Outcome {
 			s2.Min, s2.Max = s.Min, s.Max
 			s = s2
 		}
+	}
+	dir := 1.0
+	if c.Decreasing {
+		s.Min, s.Max = hi, lo
+		if c.EarlierMin == 0 && c.EarlierMax == 0 {
+			s = scale.Log{Min: hi, Max: lo, Base: c.Base}
+		}
+		lo, hi = hi, lo // from here on: lo is the scale's Min, hi its Max
+		dir = -1
 	}
 	neg := lo < 0
 	cl := s
@@ -210,11 +223,11 @@ var checkLog = ev.Register("log", func(c *LogCase) ev.Outcome {
 		}
 		ev.MaxErr("log-map", math.Abs(y-want)/tol)
 		if !math.IsNaN(prevX) {
-			if y < prevY-tol {
+			if dir*(y-prevY) < -tol {
 				return ev.Fail("Map not monotone: Map(%v) = %.17g, Map(%v) = %.17g", prevX, prevY, x, y)
 			}
 			// strictness can only be observed above the resolution of the logarithm itself
-			if sep := math.Abs(lnAbs(x) - lnAbs(prevX)); sep > 1e-9*lw && sep > 8*ref.Eps*(1+math.Abs(lnAbs(x))+lmag) && !(y > prevY) {
+			if sep := math.Abs(lnAbs(x) - lnAbs(prevX)); sep > 1e-9*lw && sep > 8*ref.Eps*(1+math.Abs(lnAbs(x))+lmag) && !(dir*(y-prevY) > 0) {
 				return ev.Fail("Map not strictly monotone: Map(%v) = %.17g, Map(%v) = %.17g", prevX, prevY, x, y)
 			}
 		}
@@ -261,6 +274,9 @@ var checkLog = ev.Register("log", func(c *LogCase) ev.Outcome {
 	cls := "log-positive"
 	if neg {
 		cls = "log-negative"
+	}
+	if c.Decreasing {
+		return ev.OK(nt, cls, "log-decreasing-literal")
 	}
 	return ev.OK(nt, cls)
 })
@@ -520,6 +536,7 @@ func TestLog(t *testing.T) {
 		case 2: // another domain of the same sign
 			c.EarlierMin, c.EarlierMax = c.Min*3, c.Max*50
 		}
+		c.Decreasing = rapid.IntRange(0, 2).Draw(rt, "decreasingLiteral") == 0
 		checkLog.Run(rt, c)
 	})
 }
